@@ -81,6 +81,20 @@ func (s *sched) yield(site string) {
 	s.mu.Unlock()
 }
 
+// adoptAt: the next unmanaged goroutine that reaches the site becomes process name; unadopt withdraws an offer nobody took.
+func (s *sched) adoptAt(site, name string) {
+	s.mu.Lock()
+	s.adopt[site] = name
+	delete(s.byName, name)
+	s.mu.Unlock()
+}
+
+func (s *sched) unadopt(site string) {
+	s.mu.Lock()
+	delete(s.adopt, site)
+	s.mu.Unlock()
+}
+
 // spawn starts f as process name and runs it to its first gate.
 func (s *sched) spawn(name string, f func()) {
 	p := &proc{name: name, gate: make(chan struct{})}
